@@ -29,7 +29,13 @@ func ToDate32(t time.Time) Date32 {
 		return 0
 	}
 	_, offset := t.Zone()
-	return Date32((t.Unix() + int64(offset)) / secInDay)
+	sec := t.Unix() + int64(offset)
+	days := sec / secInDay
+	if sec%secInDay < 0 {
+		// Round toward negative infinity: dates before 1970-01-01.
+		days--
+	}
+	return Date32(days)
 }
 
 // NewDate32 returns the Date32 corresponding to year, month and day in UTC.
